@@ -320,9 +320,10 @@ def probes(ctx, exe, fails):
     rc, j, err = run([vtodo("alias", "i=0; while [ $i -lt 300 ]; do echo oooooooooooooooooooooooooooooooooooooooo; echo eeeeeeeeeeeeeeeeeeeeeeeeeeeeeeeeeeeeeeee >&2; i=$((i+1)); done",
                             ["X-ECHS-OFILE:%s/both.log" % base, "X-ECHS-EFILE:%s/./both.log" % base, "X-ECHS-MAIL-OUT:0", "X-ECHS-MAIL-ERR:0"])])
     got = rd("both.log") or ""
-    if (got.count("ooooo"), got.count("eeeee")) != (300, 300):
-        seen["same-file-alias"] = "OFILE and EFILE name one file in two spellings, 300 lines on each stream: the file holds %d and %d" % (
-            sum(1 for l in got.split("\n") if l.startswith("ooooo")), sum(1 for l in got.split("\n") if l.startswith("eeeee")))
+    nlo = sum(1 for l in got.split("\n") if l == "o" * 40)
+    nle = sum(1 for l in got.split("\n") if l == "e" * 40)
+    if (nlo, nle) != (300, 300):
+        seen["same-file-alias"] = "OFILE and EFILE name one file in two spellings, 300 lines on each stream: the file holds %d and %d whole lines" % (nlo, nle)
     shutil.rmtree(base, ignore_errors=True)
     ctx.cov["probes"] = dict(seen) or "all probes as demanded"
     known = {k.get("class"): k for k in common.load_known("C13") if k.get("status") == "known"}
